@@ -423,6 +423,14 @@ func (hc *HeaderChain) SetCurrentHeader(head *types.Header) {
 	hc.currentHeaderHash = head.Hash()
 }
 
+// setCurrentHeaderInMemory sets the current head header without touching the
+// database (the caller has written the head header hash itself).
+func (hc *HeaderChain) setCurrentHeaderInMemory(head *types.Header) {
+	head.SetVersion(hc.GetBlockVersion(head.Number))
+	hc.currentHeader.Store(head)
+	hc.currentHeaderHash = head.Hash()
+}
+
 // DeleteCallback is a callback function that is called by SetHead before
 // each header is deleted.
 type DeleteCallback func(common.Hash, uint64)
